@@ -488,6 +488,14 @@ func ruleC06DistinctLoop(c *Ctx) {
 			}
 		}
 		if !fpOK {
+			// array form: sum := sha256.Sum256(text of the row); key derived from sum[:] — the array cell was stored on this path
+			for _, e := range p.Effects {
+				if e.Kind == "store" && len(e.Args) == 2 && e.Args[0].Op == "alloc" && wholeRow(e.Args[1]) && strings.Contains(seenKey.String(), e.Args[0].String()) {
+					fpOK = true
+				}
+			}
+		}
+		if !fpOK {
 			why = append(why, "the fingerprint is not computed from the whole row: "+seenKey.String())
 		}
 		appends, records := 0, 0
